@@ -112,9 +112,35 @@ class Worker:
         self.t.join(2)
 
 
-def run_two(ws, first, switches, limit=100000):
+def concretize(x, lo, hi):
+    """Decide a (symbolic) int in lo..hi by bisection: ~log2(hi - lo) solver decisions instead of one per scheduled step."""
+    while lo < hi:
+        mid = (lo + hi) // 2
+        if x <= mid:
+            hi = mid
+        else:
+            lo = mid + 1
+    return lo
+
+
+def run_two(ws, first, switches, limit=100000, bound=4096):
     """Run two workers: start with ws[first]; after the k-th scheduled step (k in `switches`, compared symbolically) switch to
     the other worker if it is runnable; a finished or blocked worker always yields to the other. Returns total steps."""
+    switches = [concretize(sw, 0, bound) for sw in switches]
+    first = concretize(first, 0, 1)
+    # everything is concrete from here on: run the schedule outside CrossHair's tracer (the workers are untraced anyway)
+    try:
+        from crosshair.tracers import NoTracing, is_tracing
+        ctx = NoTracing() if is_tracing() else None
+    except Exception:
+        ctx = None
+    if ctx is not None:
+        with ctx:
+            return _run_two_concrete(ws, first, switches, limit)
+    return _run_two_concrete(ws, first, switches, limit)
+
+
+def _run_two_concrete(ws, first, switches, limit):
     cur = first
     n = 0
     while n < limit:
